@@ -64,7 +64,7 @@ def judge (j : Json) : R Verdict := do
       | _ => false)
     let cd : Codecs := {
       b64 := fun _ => if isB64 then obsBytes else none
-      bech32 := fun s => if gen == "address:bech32" || (hexToBytes s).isNone then obsAddr else none }
+      bech32 := fun s => if gen.startsWith "address:bech32" || (hexToBytes s).isNone then obsAddr else none }
     let m := fromJson cd v ty
     let mut corr : List String := []
     let mut spec : List String := []
@@ -90,6 +90,9 @@ def judge (j : Json) : R Verdict := do
           | none => pure ()
         | _ => pure ()
       | .error _ => pure ()
+    -- a bech32 text whose checksum does not hold is not an address
+    if gen == "address:bech32-bad-checksum" && (obs.getObjVal? "ok").isOk then
+      spec := spec ++ ["accepts-ill-formed-bech32"]
     -- ill-formed text must not be accepted as bytes/ints
     if gen == "ill-formed" then
       match v, ty, obs.getObjVal? "ok" with
